@@ -153,6 +153,8 @@ class Ctx:
         """Register one executed case (inputs)."""
         self.evaluations += 1
         if nontrivial:
+            if isinstance(case, dict) and "index" in case:
+                case = {k: v for k, v in case.items() if k != "index"}  # the stream position is not an input
             self.nontrivial.add(case_hash(case))
             if len(self.samples) < 3:
                 self.samples.append(enc(sample if sample is not None else case))
